@@ -600,7 +600,7 @@ class _ScipyLA(object):
     def qr(a, mode='full', **kw):
         kw2 = dict(kw)
         kw2['mode'] = mode
-        return _la_call('qr', lambda m: tuple(_LA.qr(m, **kw2)), (arr.asarr(a),), kw2)
+        return _la_call('qr', lambda m, **k_: tuple(_LA.qr(m, **kw2)), (arr.asarr(a),), kw2)
 
     @staticmethod
     def solve_triangular(a, b, trans=0, **kw):
